@@ -18,6 +18,8 @@ from sim.devices.ledger import pin_policy_ok            # noqa: E402
 from sim.devices.ledger_admin import (AdminLedgerDevice, MODE_DASHBOARD, ORDERED_PATHS,  # noqa: E402
                                       path_binary)
 from sim.devices.sgx_admin import SgxAdminDevice        # noqa: E402
+from sim.hidlink import sever as hid_sever              # noqa: E402
+from sim.tcplink import sever as tcp_sever              # noqa: E402
 
 import adm_ledger                                       # noqa: E402
 import adm_sgx                                          # noqa: E402
@@ -30,7 +32,9 @@ RULE = ("one run = (platform {Ledger, SGX}, command {onboard, unlock, changepin,
         "0..2 invalid attempts (incl. letters / digits outside ASCII), --anypin, answers yes / no / "
         "other-then-yes / other-then-no / 3..5 non-answers then no or EOF, --nounlock, "
         "--noexec}); enumerated: the full product of the enum dimensions; seeded: PIN strings and "
-        "entropy; non-trivial = at least one APDU reached the device; distinct = the scenario tuple")
+        "entropy, a failing onboarded query, one link fault addressed by instruction, a blank device "
+        "after the re-plug, and the device replaced by another one (onboarded / unlocked / blank) while "
+        "the tool waits at its first or second prompt; non-trivial = at least one APDU reached the device; distinct = the scenario tuple")
 MUTANT_WALL = 150
 TIERS = {"quick": {"runs": 40000, "wall": 240}, "thorough": {"runs": 400000, "wall": 3000}}
 EXHAUSTIVE = {"quick": True, "thorough": True}
@@ -102,6 +106,13 @@ def run_one(ch, cfg):
     # seeded only: what the operator plugs back in during the onboarding ceremony is blank (another
     # dongle, or the wipe did not survive the power cycle) - the unlock that follows must notice
     comes_back_blank = ch.draw(6, "replug-comes-back-blank") == 1
+    # seeded only: while the tool waits for the operator at a prompt, the device it examined is
+    # unplugged and another one plugged in (SGX: the service is restarted on another state)
+    swap = ch.draw(6, "device-swapped-at-prompt") == 1 and not link_fault_run and not onb_err
+    if swap and ch.draw(4, "swap.any-scenario") != 0:
+        # mostly from a healthy scenario of the command, so that the tool gets as far as its prompts
+        mode, echo_ok, onboarded = "bootloader", True, command != "onboard"
+        pinkind, answers, bad_attempts = "valid", ["yes"], 0
     devpin = b"Dev1cePin"[:8]
     seed = ch.bytes(6, "devseed")
     log, clock = EventLog(), Clock()
@@ -185,6 +196,27 @@ def run_one(ch, cfg):
             dev.onboarded = False
             dev.pin = None
     op.stdin_script = [(a, None) for a in answers] + [("", replug)]
+    swapped = {}
+    if swap:
+        swap_to = ch.pick(["onboarded", "unlocked", "blank"], "swap.to")
+        swap_at = ch.draw(2, "swap.prompt")
+
+        def on_prompt():
+            if "to" in swapped or op.prompts - 1 != swap_at:
+                return
+            swapped["to"] = swap_to
+            (hid_sever if platform == "ledger" else tcp_sever)(w.link)
+            _pr = getattr(dev, "replug", None)
+            _pr and _pr()
+            if swap_to == "blank":
+                dev.onboarded, dev.pin = False, None
+            else:
+                dev.onboarded, dev.pin = True, b"0therPin"
+            if platform == "ledger":
+                dev.mode = L.MODE_SIGNER if swap_to == "unlocked" else L.MODE_BOOTLOADER
+            else:
+                dev.locked = swap_to != "unlocked"
+        op.on_prompt = on_prompt
     start = {"onboarded": dev.onboarded, "pin": dev.pin, "mode": dev.mode,
              "locked": getattr(dev, "locked", None)}
     # link fault (seeded runs, Ledger): the answer to one exchange is lost after the device acted, or
@@ -281,7 +313,7 @@ def run_one(ch, cfg):
             viol.append(("pin/policy", desc + " sent %s PIN %r" % (kind, p)))
     # ---- V5: when the preconditions hold the operation is carried out
     good_pin = pin is not None and pin_policy_ok(pin.encode())
-    if onb_err or lfault.get("fired") or comes_back_blank:
+    if onb_err or lfault.get("fired") or comes_back_blank or swapped:
         good_pin = False
         pinkind = pinkind if pinkind != "valid" else "valid-but-undeterminable"
     if command == "onboard" and pre and good_pin:
@@ -289,7 +321,7 @@ def run_one(ch, cfg):
             viol.append(("onboard/not-carried-out", desc))
         if platform == "ledger" and (status != 0 or "/simfs/attestation-setup.json" not in w.fs.files):
             viol.append(("onboard/attestation-setup-missing", desc + " | " + out[-200:]))
-    can_unlock = onboarded and mode == "bootloader" and echo_ok
+    can_unlock = onboarded and mode == "bootloader" and echo_ok and not swapped
     if command == "unlock" and can_unlock and pinkind == "valid":
         unlocked = (dev.mode != L.MODE_BOOTLOADER) if platform == "ledger" else (not dev.locked)
         if not unlocked or status != 0:
@@ -309,7 +341,7 @@ def run_one(ch, cfg):
             want = {p: dev.pubkey_for(path_binary(p)).hex() for p in ORDERED_PATHS}
             if doc != want:
                 viol.append(("pubkeys/content", desc + " file %r" % (doc,)))
-        elif lfault.get("fired"):
+        elif lfault.get("fired") or swapped:
             pass
         elif reached_signer and onboarded and (pinkind == "valid" or flag2 or mode == "signer"):
             if mode == "signer" and not flag2:
@@ -323,7 +355,8 @@ def run_one(ch, cfg):
             "faults": dict(w.link.stats.faults) if platform == "ledger" else {},
             "probes": {"status.%s" % status: 1, "cmd." + command: 1,
                        "onboarded_now": int(dev.onboarded and not onboarded),
-                       "pin_changed": int(dev.pin != start["pin"])},
+                       "pin_changed": int(dev.pin != start["pin"]),
+                       "device_swapped_at_prompt": int(bool(swapped))},
             "sim_s": w.clock.elapsed,
             "sample": {"argv": argv, "device": {"mode": mode, "onboarded": onboarded,
                                                 "echo_ok": echo_ok},
@@ -333,15 +366,15 @@ def run_one(ch, cfg):
 
 ENUM_LABELS = ["platform", "command", "mode", "not-onboarded", "echo-bad", "pin-kind", "pin-via-prompt",
                "invalid-attempts-first", "answers", "anypin", "nounlock/noexec", "onboarded-query-fails",
-               "link-fault", "replug-comes-back-blank"]
+               "link-fault", "replug-comes-back-blank", "device-swapped-at-prompt"]
 
 
 class _Enum:
     def __init__(self, tier):
         import itertools
-        # the two trailing zeros switch the seeded-only dimensions off (failing onboarded query, link
-        # fault): an enumerated case is exactly the listed scenario
-        self.items = [list(c) + [0, 0, 0] for c in itertools.product(*DIMS)]
+        # the trailing zeros switch the seeded-only dimensions off (failing onboarded query, link
+        # fault, blank re-plug, device swap): an enumerated case is exactly the listed scenario
+        self.items = [list(c) + [0, 0, 0, 0] for c in itertools.product(*DIMS)]
 
     def __len__(self):
         return len(self.items)
